@@ -83,7 +83,9 @@ def cases_for(rng, n, ctx):
             jk = jk_mine
             back = _call(lambda: pe.import_jackknife(jk, name, idl=[idl if rng.random() < 0.5 else list(idl)]))
             cases.append({'id': 'ji-' + tag, 'ev': 'jack_import', 'obs': po, 'res': _res(back)})
-            cases.append({'id': 'jf-' + tag, 'ev': 'frame', 'what': 'import_jackknife leaves the caller\'s samples as they were', 'before': jk_before, 'after': _seq(jk)})
+            # the same samples a second time: importing is not consuming
+            back2 = _call(lambda: pe.import_jackknife(jk, name, idl=[idl]))
+            cases.append({'id': 'ji2-' + tag, 'ev': 'jack_import', 'obs': po, 'res': _res(back2)})
             ctx.nontrivial.add((N, cls, kind))
             if N <= 40:
                 # bootstrap with a supplied table
@@ -99,11 +101,8 @@ def cases_for(rng, n, ctx):
                     continue
                 cases.append({'id': 'bx-%s-ns%d' % (tag, ns), 'ev': 'boot_export', 'obs': po, 'table': tl, 'boots': _seq(bs)})
                 if N <= 14:
-                    bs_before, tb_before = _seq(bs), [[int(v) for v in row] for row in table]
                     bi = _call(lambda: pe.import_bootstrap(bs, name, table))
                     cases.append({'id': 'bi-%s-ns%d' % (tag, ns), 'ev': 'boot_import', 'obs': po, 'table': tl, 'res': _res(bi)})
-                    cases.append({'id': 'bf-%s-ns%d' % (tag, ns), 'ev': 'frame', 'what': 'import_bootstrap leaves the caller\'s samples and table as they were',
-                                  'before': bs_before + [rat(v) for row in tb_before for v in row], 'after': _seq(bs) + [rat(int(v)) for row in table for v in row]})
                     # a second import of the very same arrays restores the observable again
                     bi2 = _call(lambda: pe.import_bootstrap(bs, name, table))
                     cases.append({'id': 'bi2-%s-ns%d' % (tag, ns), 'ev': 'boot_import', 'obs': po, 'table': tl, 'res': _res(bi2)})
